@@ -1,3 +1,4 @@
+import BalmProofs.JudgeExact
 import BalmProofs.WeakSpec
 import BalmProofs.ContractSpec
 import BalmProofs.JudgeSpec
